@@ -200,6 +200,22 @@ pub fn run(tier: Tier) -> i32 {
             }
         }
     }
+    // strings whose encoded bytes begin like a byte-order mark
+    for (cp, _) in PAGES.iter() {
+        for text in ["\u{feff}abc", "\u{ff}\u{fe}ab", "\u{fe}\u{ff}ab", "\u{ef}\u{bb}\u{bf}ab", "\u{feff}", "\u{44f}\u{44e}ab"] {
+            if ref_decode(*cp, &ref_encode(*cp, text)) != text {
+                continue;
+            }
+            let b = ref_encode(*cp, text);
+            let bomlike = b.starts_with(&[0xFF, 0xFE]) || b.starts_with(&[0xFE, 0xFF]) || b.starts_with(&[0xEF, 0xBB, 0xBF]);
+            if !bomlike {
+                continue;
+            }
+            for prop in PROPS {
+                cases.push(Case { cp: *cp, prop, text: text.to_string(), class: "bom-like-prefix".into() });
+            }
+        }
+    }
     let results: Vec<Vec<(String, String)>> = cases.par_iter().map(run_case).collect();
     let mut classes = std::collections::BTreeSet::new();
     for (c, r) in cases.iter().zip(results.into_iter()) {
